@@ -33,7 +33,7 @@ Proof.
   - exact IH.
 Qed.
 
-Lemma check_head_not_ok me rooms h : check_head me rooms h <> Some VOk.
+Lemma check_head_not_ok me now rooms h : check_head me now rooms h <> Some VOk.
 Proof.
   unfold check_head. destruct (h_kind h); [|discriminate].
   destruct (negb (h_has_node h)); [discriminate|]. destruct (h_too_big h); [discriminate|].
@@ -42,17 +42,25 @@ Proof.
     destruct (find_room rooms rid) as [r|]; [|discriminate].
     destruct (o_room old) as [orid|].
     + destruct (N.eqb orid rid).
-      * destruct (can r me _ _ _); discriminate.
+      * destruct (can r me _ _ _); [destruct (dels_ok _ _ _ _)|]; discriminate.
       * destruct (find_room rooms orid) as [oroom|]; [|discriminate].
-        destruct (can oroom me _ _ _); [|discriminate]. destruct (can r me _ _ _); discriminate.
-    + destruct (can r me _ _ _); discriminate.
+        destruct (can oroom me _ _ _); [|discriminate]. destruct (can r me _ _ _); [destruct (dels_ok _ _ _ _)|]; discriminate.
+    + destruct (can r me _ _ _); [destruct (dels_ok _ _ _ _)|]; discriminate.
   - destruct (h_room h) as [rid|]; [|discriminate].
-    destruct (find_room rooms rid) as [r|]; [|discriminate]. destruct (can r me _ _ _); discriminate.
+    destruct (find_room rooms rid) as [r|]; [|discriminate]. destruct (can r me _ _ _); [destruct (dels_ok _ _ _ _)|]; discriminate.
 Qed.
 
-Lemma check_head_entitled defs me h :
-  wf_head h = true -> check_head me (build_rooms defs) h = None -> h_has_node h = true ->
-  head_entitled defs me h = true.
+Lemma dels_ok_granted defs me now rid r h :
+  find_room (build_rooms defs) rid = Some r -> dels_ok me now r h = true ->
+  forallb (fun a => N.eqb a me || granted (evs_of defs rid) me (h_ent h) now MutateAll) (h_edge_dels h) = true.
+Proof.
+  intros Hr. destruct (find_room_build _ _ _ Hr) as [_ Hg]. unfold dels_ok.
+  intros H. rewrite forallb_forall in *. intros a Ha. rewrite <- Hg. apply H. exact Ha.
+Qed.
+
+Lemma check_head_entitled defs me now h :
+  wf_head h = true -> check_head me now (build_rooms defs) h = None -> h_has_node h = true ->
+  head_entitled defs me now h = true.
 Proof.
   unfold check_head, head_entitled, wf_head. intros Hwf Hc Hn.
   destruct (h_kind h); [|discriminate]. rewrite Hn in Hc. simpl in Hc.
@@ -61,18 +69,24 @@ Proof.
   - destruct (h_room h) as [rid|].
     + destruct (find_room (build_rooms defs) rid) as [r|] eqn:Hr; [|discriminate].
       destruct (find_room_build _ _ _ Hr) as [Hk Hg]. rewrite Hk. simpl.
+      pose proof (dels_ok_granted defs me now rid r h Hr) as HD.
       destruct (o_room old) as [orid|].
       * simpl. destruct (N.eqb orid rid) eqn:He.
-        -- rewrite <- Hg. destruct (can r me _ _ _); [reflexivity|discriminate].
+        -- rewrite <- Hg. destruct (can r me _ _ _); [|discriminate].
+           destruct (dels_ok me now r h); [|discriminate]. rewrite (HD eq_refl). reflexivity.
         -- destruct (find_room (build_rooms defs) orid) as [oroom|] eqn:Hor; [|discriminate].
            destruct (find_room_build _ _ _ Hor) as [_ Hog]. rewrite <- Hg, <- Hog.
-           destruct (can oroom me _ _ _); [|discriminate]. destruct (can r me _ _ _); [reflexivity|discriminate].
-      * rewrite <- Hg. destruct (can r me _ _ _); [reflexivity|discriminate].
+           destruct (can oroom me _ _ _); [|discriminate]. destruct (can r me _ _ _); [|discriminate].
+           destruct (dels_ok me now r h); [|discriminate]. rewrite (HD eq_refl). reflexivity.
+      * rewrite <- Hg. destruct (can r me _ _ _); [|discriminate].
+        destruct (dels_ok me now r h); [|discriminate]. rewrite (HD eq_refl). reflexivity.
     + destruct (o_room old); [discriminate|reflexivity].
   - destruct (h_room h) as [rid|]; [|reflexivity].
     destruct (find_room (build_rooms defs) rid) as [r|] eqn:Hr; [|discriminate].
     destruct (find_room_build _ _ _ Hr) as [Hk Hg]. rewrite Hk, <- Hg. simpl.
-    destruct (can r me _ _ _); [reflexivity|discriminate].
+    pose proof (dels_ok_granted defs me now rid r h Hr) as HD.
+    destruct (can r me _ _ _); [|discriminate].
+    destruct (dels_ok me now r h); [|discriminate]. rewrite (HD eq_refl). reflexivity.
 Qed.
 
 (* induction principle for the nested tree *)
@@ -89,42 +103,42 @@ Fixpoint ment_ind' (P : ment -> Prop) (H : forall h subs, Forall P subs -> P (ME
 Lemma forallb_app' {A} (f : A -> bool) l1 l2 : forallb f (l1 ++ l2) = forallb f l1 && forallb f l2.
 Proof. induction l1; simpl; [reflexivity|]. rewrite IHl1, andb_assoc. reflexivity. Qed.
 
-Lemma validate_entity_entitled defs me m :
-  wf_tree m = true -> validate_entity me (build_rooms defs) m = VOk ->
-  forallb (head_entitled defs me) (written m) = true.
+Lemma validate_entity_entitled defs me now m :
+  wf_tree m = true -> validate_entity me now (build_rooms defs) m = VOk ->
+  forallb (head_entitled defs me now) (written m) = true.
 Proof.
   induction m as [h subs IH] using ment_ind'. intros Hwf Hv. simpl in *.
   apply andb_prop in Hwf. destruct Hwf as [Hwh Hws].
-  destruct (check_head me (build_rooms defs) h) as [v|] eqn:Hc.
+  destruct (check_head me now (build_rooms defs) h) as [v|] eqn:Hc.
   - subst v. exfalso. eapply check_head_not_ok; eauto.
   - rewrite forallb_app'. apply andb_true_intro. split.
     + destruct (h_has_node h) eqn:Hn; simpl; [|reflexivity].
-      rewrite (check_head_entitled defs me h Hwh Hc Hn). reflexivity.
+      rewrite (check_head_entitled defs me now h Hwh Hc Hn). reflexivity.
     + clear Hc. induction subs as [|s tl IHl]; simpl; [reflexivity|].
       simpl in Hws. apply andb_prop in Hws. destruct Hws as [Hs Htl].
       inversion IH as [|? ? IHs IHtl]; subst.
-      destruct (validate_entity me (build_rooms defs) s) eqn:Hvs; try discriminate.
+      destruct (validate_entity me now (build_rooms defs) s) eqn:Hvs; try discriminate.
       rewrite forallb_app'. rewrite (IHs Hs eq_refl). simpl. apply IHl; assumption.
 Qed.
 
-Theorem mutation_entitled defs me ms :
-  forallb wf_tree ms = true -> validate_all me (build_rooms defs) ms = VOk ->
-  forallb (head_entitled defs me) (flat_map written ms) = true.
+Theorem mutation_entitled defs me now ms :
+  forallb wf_tree ms = true -> validate_all me now (build_rooms defs) ms = VOk ->
+  forallb (head_entitled defs me now) (flat_map written ms) = true.
 Proof.
   induction ms as [|m tl IH]; simpl; intros Hwf Hv; [reflexivity|].
   apply andb_prop in Hwf. destruct Hwf as [Hm Htl].
-  destruct (validate_entity me (build_rooms defs) m) eqn:Hvm; try discriminate.
-  rewrite forallb_app', (validate_entity_entitled defs me m Hm Hvm). simpl. apply IH; assumption.
+  destruct (validate_entity me now (build_rooms defs) m) eqn:Hvm; try discriminate.
+  rewrite forallb_app', (validate_entity_entitled defs me now m Hm Hvm). simpl. apply IH; assumption.
 Qed.
 
 (* a refused mutation: the verdict is an error for the whole request, nothing is written
    (MutationQuery::write is reached only after validate_mutation returned Ok) — on the model
    this is: the verdict of a list is VOk only if every tree is VOk *)
-Theorem mutation_all_or_nothing me rooms ms :
-  validate_all me rooms ms = VOk -> Forall (fun m => validate_entity me rooms m = VOk) ms.
+Theorem mutation_all_or_nothing me now rooms ms :
+  validate_all me now rooms ms = VOk -> Forall (fun m => validate_entity me now rooms m = VOk) ms.
 Proof.
   induction ms as [|m tl IH]; simpl; intros Hv; [constructor|].
-  destruct (validate_entity me rooms m) eqn:Hvm; try discriminate. constructor; auto.
+  destruct (validate_entity me now rooms m) eqn:Hvm; try discriminate. constructor; auto.
 Qed.
 
 Lemma check_del_entitled defs me now k e room author date :
@@ -163,10 +177,10 @@ Qed.
 Definition wf_case (c : c01case) : bool :=
   match c with
   | CMatrix _ _ => true
-  | CMut _ _ ms => forallb wf_tree ms
+  | CMut _ _ _ ms => forallb wf_tree ms
   | CDel _ _ _ _ _ _ => true
   | CRoomMut _ _ _ _ _ => true
-  | CE2E (CMut _ _ ms) => forallb wf_tree ms
+  | CE2E (CMut _ _ _ ms) => forallb wf_tree ms
   | CE2E (CDel _ _ _ _ _ _) => true
   | CE2E (CRoomMut _ _ _ _ _) => true
   | CE2E _ => false
@@ -187,8 +201,8 @@ Theorem model_accepts_only_entitled c :
   wf_case c = true ->
   match c with CMatrix _ _ => True | _ => spec_C01 c (run_C01 c) = true end.
 Proof.
-  destruct c as [evs probes|defs me ms|defs me now ns es upd|defs me rid date news|inner]; intros Hwf; try exact I.
-  - simpl in *. destruct (validate_all me (build_rooms defs) ms) eqn:Hv; simpl; try reflexivity.
+  destruct c as [evs probes|defs me mnow ms|defs me now ns es upd|defs me rid date news|inner]; intros Hwf; try exact I.
+  - simpl in *. destruct (validate_all me mnow (build_rooms defs) ms) eqn:Hv; simpl; try reflexivity.
     apply mutation_entitled; assumption.
   - simpl. destruct (validate_deletion me now (build_rooms defs) ns es upd) eqn:Hv; simpl; try reflexivity.
     destruct (deletion_entitled _ _ _ _ _ _ Hv) as (H1 & H2 & H3). rewrite H1, H2, H3. reflexivity.
@@ -201,8 +215,8 @@ Proof.
     + simpl in Hrun. destruct (find (fun p => N.eqb (fst p) rid) defs); discriminate.
     + destruct (Z.eqb v 0) eqn:Hv; [|reflexivity]. apply Z.eqb_eq in Hv. subst v. apply HR. reflexivity.
     + simpl in Hrun. destruct (find (fun p => N.eqb (fst p) rid) defs); discriminate.
-  - destruct inner as [evs probes|defs me ms|defs me now ns es upd|defs me rid date news|inner']; simpl in *; try discriminate.
-    + destruct (validate_all me (build_rooms defs) ms) eqn:Hv; simpl; try reflexivity.
+  - destruct inner as [evs probes|defs me mnow ms|defs me now ns es upd|defs me rid date news|inner']; simpl in *; try discriminate.
+    + destruct (validate_all me mnow (build_rooms defs) ms) eqn:Hv; simpl; try reflexivity.
       apply mutation_entitled; assumption.
     + destruct (validate_deletion me now (build_rooms defs) ns es upd) eqn:Hv; simpl; try reflexivity.
       destruct (deletion_entitled _ _ _ _ _ _ Hv) as (H1 & H2 & H3). rewrite H1, H2, H3. reflexivity.
@@ -222,10 +236,10 @@ Proof. repeat split; [apply can_granted|apply can_granted|apply is_admin_admin_a
 (* non-vacuity: a concrete history in which a member may write its own rows but not others' *)
 Example C01_nonvacuous :
   let defs := [(1%N, [EvGroup 1%N; EvUser 1%N 2%N 10 true; EvRight 1%N 0%N 10 true false])] in
-  validate_all 2%N (build_rooms defs)
+  validate_all 2%N 20 (build_rooms defs)
     [MEnt {| h_kind := KNormal; h_ent := 3%N; h_room := Some 1%N; h_date := 20; h_has_node := true;
-             h_too_big := false; h_old := None; h_edge_dels := 0%N |} []] = VOk /\
-  validate_all 2%N (build_rooms defs)
+             h_too_big := false; h_old := None; h_edge_dels := [] |} []] = VOk /\
+  validate_all 2%N 20 (build_rooms defs)
     [MEnt {| h_kind := KNormal; h_ent := 3%N; h_room := Some 1%N; h_date := 20; h_has_node := true;
-             h_too_big := false; h_old := Some {| o_room := Some 1%N; o_author := 5%N |}; h_edge_dels := 0%N |} []] = VRejected.
+             h_too_big := false; h_old := Some {| o_room := Some 1%N; o_author := 5%N |}; h_edge_dels := [] |} []] = VRejected.
 Proof. split; vm_compute; reflexivity. Qed.
